@@ -5,7 +5,6 @@ import (
 	"strconv"
 	"strings"
 
-	"github.com/ExocoreNetwork/exocore/x/oracle/keeper/cache"
 	"github.com/ExocoreNetwork/exocore/x/oracle/types"
 	sdk "github.com/cosmos/cosmos-sdk/types"
 )
@@ -72,11 +71,8 @@ func (k Keeper) RegisterNewTokenAndSetTokenFeeder(ctx sdk.Context, oInfo *types.
 		// it's possible for  one price bonded with multiple assetID, like ETHUSDT from sepolia/mainnet
 		if t.Name == oInfo.Token.Name && t.ChainID == chainID {
 			t.AssetID = strings.Join([]string{t.AssetID, oInfo.AssetID}, ",")
+			// (the oracle's EndBlock picks the change up from the store)
 			k.SetParams(ctx, p)
-			if !ctx.IsCheckTx() {
-				_ = GetAggregatorContext(ctx, k)
-				cs.AddCache(cache.ItemP(p))
-			}
 			// there should have been existing tokenFeeder running(currently we register tokens from assets-module and with infinite endBlock)
 			return nil
 		}
@@ -104,12 +100,10 @@ func (k Keeper) RegisterNewTokenAndSetTokenFeeder(ctx sdk.Context, oInfo *types.
 		EndBlock: 0,
 	})
 
+	// the in-memory caches are not touched here: this runs inside a transaction (an EVM
+	// call to the assets precompile) that can still be reverted as a whole, which takes back
+	// the store write below but would not take back a cached copy. The oracle's EndBlock
+	// picks the change up from the store.
 	k.SetParams(ctx, p)
-	// skip cache update if this is not deliverTx
-	// for normal cosmostx, checkTx will skip actual message exucution and do anteHandler only, but from ethc.callContract the message will be executed without anteHandler check as checkTx mode.
-	if !ctx.IsCheckTx() {
-		_ = GetAggregatorContext(ctx, k)
-		cs.AddCache(cache.ItemP(p))
-	}
 	return nil
 }
